@@ -401,9 +401,22 @@ def drain_hooks():
         return []
 
 
+def has_nonfinite(x):
+    if isinstance(x, float):
+        return not math.isfinite(x)
+    if isinstance(x, (list, tuple)):
+        return any(has_nonfinite(y) for y in x)
+    if isinstance(x, dict):
+        return any(has_nonfinite(v) for k, v in x.items() if k not in getattr(has_nonfinite, "skip", ()))
+    return False
+
+
 def safe_impl(prop, case):
     try:
-        return prop.run_impl(case)
+        out = prop.run_impl(case)
+        if isinstance(out, dict) and "error" not in out and not getattr(prop, "allow_nonfinite", False) and has_nonfinite(out):
+            return {"error": "NonFinite", "msg": "the implementation returned NaN/inf values", "raw": repr(out)[:400]}
+        return out
     except Exception as e:  # noqa
         return {"error": type(e).__name__, "msg": str(e)[:300],
                 "tb": traceback.format_exc()[-800:]}
@@ -585,13 +598,22 @@ def run_check(prop, tier="quick", seed=0, replay=None, selftest=False, ncases=No
     for c, o in zip(cases, outs):
         kcls = prop.classify(c, o)
         hist[kcls] = hist.get(kcls, 0) + 1
-        if prop.nontrivial(c, o):
+        try:
+            nt = prop.nontrivial(c, o)
+        except Exception:  # noqa
+            nt = False
+        if nt:
             distinct[case_hash({k: v for k, v in c.items() if not k.startswith("_")})] = 1
     errkinds = {}
     for o in outs:
         e = o.get("error", "Ok") if isinstance(o, dict) else "Ok"
         errkinds[e] = errkinds.get(e, 0) + 1
-    samples = [prop.describe(c, o) for c, o in list(zip(cases, outs))[:3]]
+    samples = []
+    for c, o in list(zip(cases, outs))[:3]:
+        try:
+            samples.append(prop.describe(c, o))
+        except Exception as e:  # noqa
+            samples.append({"describe_failed": repr(e)})
     ev = {
         "property_id": pid, "tier": tier, "seed": seed, "level": "proof",
         "coverage": {
